@@ -1,8 +1,64 @@
 import BufrProofs.Codec
+/-
+  C05 — Decoding arbitrary bytes is memory-safe, terminates and never kills the process.  (partial)
+
+  What a proof about a model can carry, and what it cannot: the model's functions are total and have
+  no memory to corrupt; the memory safety of the C code itself is decided by running the real code
+  under AddressSanitizer/UBSan on the mutated and random inputs of props/c05.py, with `exit` intercepted,
+  and by the exact tie: the model predicts the outcome (`ok`/`invalid`/`null`/`abort`, and `crash` where
+  the C would dereference NULL) of every such input, so an unexpected crash is a disagreement.
+
+  Proved here, for ALL byte strings: the bit reader never leaves the section (an over-long read is
+  an error, a successful one stays inside); an element read keeps descriptor and encoding whatever the
+  bits; and for static templates the subset loop cannot reach a NULL dereference, needs no more
+  iterations than the list has nodes (nothing the data claim can lengthen it) and returns every node.
+  Templates with delayed replication rely on the expansion guard (`s4.len` test) mirrored in the
+  model and exercised by the streams; no theorem bounds their work.
+-/
 namespace Bufr.C05
 open Bufr
-/-- placeholder -/
-theorem C05_decode_total : True := trivial
-theorem C05_expansion_bounded : True := trivial
-theorem C05_reader_in_bounds : True := trivial
+
+/-- **the cursor never leaves the section**: a read of 1..64 bits either reports an error or ends
+at most at the end of the data; it never changes the data -/
+theorem C05_reader_in_bounds (r : R) (n : Nat) (hI : RInv r) (hn : 1 ≤ n ∧ n ≤ 64)
+    (hpos : r.pos ≤ 8 * r.maxDataLen) :
+    (r.getbits n).2.1 < 0 ∨
+    ((r.getbits n).2.2.pos = r.pos + n ∧ (r.getbits n).2.2.pos ≤ 8 * r.maxDataLen ∧
+     (r.getbits n).2.2.data = r.data) := by
+  by_cases hfit : r.pos + n ≤ 8 * r.maxDataLen
+  · obtain ⟨r', e, hp, _, hd, _⟩ := getbits_ok r n hI hn.1 hn.2 hfit
+    right
+    rw [e]
+    exact ⟨hp, by simp only; omega, hd⟩
+  · left
+    exact getbits_past_end r n hI hn.1 hn.2 (by omega)
+
+/-- whatever the bits, reading an element keeps its descriptor and encoding -/
+theorem C05_element_shape (r : R) (n : Node) (r' : R) (n' : Node) (h : getDescValue r n = some (r', n')) :
+    n'.desc = n.desc ∧ n'.enc = n.enc :=
+  getDescValue_preserves r n r' n' h
+
+/-- **static templates, arbitrary bytes**: no NULL dereference, no dependence of the number of
+iterations on the data, every node returned, completion or a clean stop at the premature end -/
+theorem C05_decode_total (T : Tables) (edition s4max : Nat) (nodes : List Node) (fuel : Nat) (ddo : DDO)
+    (st : DecSt) (done : List Node) (hf : nodes.length < fuel) (hok : staticOK T edition ddo nodes = true) :
+    ∃ st' out fin, decodeSubsetLoop T edition s4max fuel ddo st done nodes = .ok (st', out, fin) ∧
+      (fin = .complete ∨ fin = .shortRead) ∧ out.length = done.length + nodes.length :=
+  decodeSubsetLoop_static_any T edition s4max nodes fuel ddo st done hf hok
+
+/-- the iteration bound does not depend on the data: the same fuel works for every reader state -/
+theorem C05_expansion_bounded (T : Tables) (edition s4max : Nat) (nodes : List Node) (ddo : DDO)
+    (hok : staticOK T edition ddo nodes = true) :
+    ∀ (st : DecSt), ∃ res, decodeSubsetLoop T edition s4max (nodes.length + 1) ddo st [] nodes = .ok res := by
+  intro st
+  obtain ⟨st', out, fin, e, _, _⟩ := decodeSubsetLoop_static_any T edition s4max nodes (nodes.length + 1) ddo st []
+    (by omega) hok
+  exact ⟨_, e⟩
+
+/-! ### Non-vacuity -/
+example : RInv (R.ofBytes [1, 2, 3]) ∧ (R.ofBytes [1, 2, 3]).pos ≤ 8 * (R.ofBytes [1, 2, 3]).maxDataLen :=
+  ⟨⟨by decide⟩, by decide⟩
+example : ((R.ofBytes [1, 2, 3]).getbits 25).2.1 < 0 := by decide
+example : ((R.ofBytes [1, 2, 3]).getbits 24).2.2.pos = 24 := by decide
+
 end Bufr.C05
